@@ -167,6 +167,24 @@ pub broadcast axiom fn ax_str_string_eq_def<'a>(a: &'a str, b: String)
     ensures #[trigger] <&'a str as PartialEqSpec<String>>::eq_spec(&a, &b) == (a@ == b@);
 pub broadcast group string_eq2 { ax_str_string_eq_spec, ax_str_string_eq_def }
 
+// Vec::dedup (std): removes consecutive repeated elements (each element is compared with the last one kept)
+pub open spec fn dedup_adj<T: PartialEq>(s: Seq<T>) -> Seq<T>
+    decreases s.len()
+{
+    if s.len() <= 1 { s } else {
+        let r = dedup_adj(s.drop_last());
+        if <T as PartialEqSpec<T>>::eq_spec(&r.last(), &s.last()) { r } else { r.push(s.last()) }
+    }
+}
+pub assume_specification<T, A>[std::vec::Vec::<T, A>::dedup](v: &mut std::vec::Vec<T, A>)
+    where A: std::alloc::Allocator, T: std::cmp::PartialEq,
+    ensures <T as PartialEqSpec<T>>::obeys_eq_spec() ==> final(v)@ == dedup_adj(old(v)@);
+pub broadcast axiom fn ax_str_str_eq_spec<'a>()
+    ensures #[trigger] <&'a str as PartialEqSpec<&'a str>>::obeys_eq_spec();
+pub broadcast axiom fn ax_str_str_eq_def<'a>(a: &'a str, b: &'a str)
+    ensures #[trigger] <&'a str as PartialEqSpec<&'a str>>::eq_spec(&a, &b) == (a@ == b@);
+pub broadcast group string_eq3 { ax_str_str_eq_spec, ax_str_str_eq_def }
+
 // String += &str (std AddAssign): always allowed; the resulting text is left unspecified
 use vstd::std_specs::ops::*;
 pub broadcast axiom fn ax_string_add_assign_req<'a>(s: String, rhs: &'a str)
